@@ -75,6 +75,8 @@ func uidClass(uid string) string {
 		return "contains-double-semicolon"
 	case strings.Contains(uid, ";"):
 		return "contains-semicolon"
+	case strings.ContainsAny(uid, "+%"):
+		return "url-special"
 	case strings.ToLower(uid) != uid:
 		return "mixed-case"
 	}
@@ -104,9 +106,9 @@ func c14Scenarios(tier string) []engine.Scenario {
 	if tier == "thorough" {
 		depth = 5
 	}
-	codes := []string{"c:7", "c:x;;y", "c:Xy", "bad"}
+	codes := []string{"c:7", "c:x;;y", "c:Xy", "c:a+b%2F", "bad"}
 	if tier == "thorough" {
-		codes = []string{"c:7", "c:x;;y", "c:Xy", "c:xY", "c:;z", "c:a;b", "bad"}
+		codes = []string{"c:7", "c:x;;y", "c:Xy", "c:xY", "c:a+b%2F", "c:;z", "c:a;b", "bad"}
 	}
 	sc := engine.Scenario{
 		Name: "oauth2", Depth: depth,
@@ -170,7 +172,7 @@ func c14Codec(dl time.Time) engine.UnitResult {
 		}
 	}
 	gen([]string{"a", "b"}, 3, "", &provs)
-	gen([]string{"a", "A", ";", ":"}, 5, "", &uids)
+	gen([]string{"a", "A", ";", ":", "+", "%"}, 5, "", &uids)
 	type pair struct{ p, u string }
 	pids := map[string]pair{}
 	for _, p := range provs {
@@ -207,7 +209,7 @@ func c14Codec(dl time.Time) engine.UnitResult {
 func init() {
 	engine.Register(&engine.Property{
 		ID: "C14", Level: "model_checking",
-		Rule: "E1 over start / callback requests of two browsers and two providers with state in {own, other browser's, previous, empty, garbage} x code in {plain uid, uid with ';;', with ';', mixed-case uids, invalid} x provider error; plus the complete PID codec product (provider strings <= 3 over {a,b} x uid strings <= 5 over {a, A, ;, :}); classes = login / refusal kinds and codec uid classes",
+		Rule: "E1 over start / callback requests of two browsers and two providers with state in {own, other browser's, previous, empty, garbage} x code in {plain uid, uid with ';;', with ';', mixed-case uids, invalid} x provider error; plus the complete PID codec product (provider strings <= 3 over {a,b} x uid strings <= 5 over {a, A, ;, :, +, %}); classes = login / refusal kinds and codec uid classes",
 		Units: func(tier string) []engine.Unit {
 			scs := c14Scenarios(tier)
 			us := e1Units(append(scs, configVariants(scs, tier, "err500", "nil-state", "nomount")...))
